@@ -162,6 +162,69 @@ def fn_u(x, gain=1.0, deterministic=True):
     return _apply(x, _FN_W, 2.0, "neg", gain, deterministic)
 
 
+# ----------------------------------------------------------------------------- two symbolic extents
+
+
+def _grid(a, b, k):
+    # a: (P,), b: (Q,) -> (P, Q); uses BOTH extents in a shape-dependent lowering
+    cols = jnp.broadcast_to(a[:, None], (a.shape[0], b.shape[0]))
+    return cols * jnp.sum(b) * k
+
+
+@onnx_function
+def grid_d(a, b):
+    return _grid(a, b, 1.0)
+
+
+@onnx_function(unique=True)
+def grid_u(a, b):
+    return _grid(a, b, 2.0)
+
+
+@onnx_function
+class GridD:
+    def __init__(self, k):
+        self.k = np.float32(k)
+
+    def __call__(self, a, b):
+        return _grid(a, b, self.k)
+
+    def _verif_state(self):
+        return [_arr_item("k", self.k)]
+
+
+@onnx_function(unique=True)
+class GridU(nnx.Module):
+    def __init__(self, k):
+        self.k = nnx.Param(jnp.asarray(np.float32(k)))
+
+    def __call__(self, a, b):
+        return _grid(a, b, self.k[...])
+
+    def _verif_state(self):
+        return [_arr_item("k", np.asarray(self.k[...]))]
+
+
+GRID_KINDS = ["GridFnD", "GridFnU", "GridD", "GridU"]
+# which arguments (x:(B,), y:(N,), z:(B,)) the two call sites get
+SYMBOL_VARIANTS = {
+    "self_then_cross": [("x", "x"), ("x", "y")],
+    "cross_then_self": [("x", "y"), ("x", "x")],
+    "cross_then_swapped": [("x", "y"), ("y", "x")],
+    "cross_then_same_pattern": [("x", "y"), ("z", "y")],
+    "self_then_self_other_symbol": [("x", "x"), ("y", "y")],
+    "three_sites": [("x", "x"), ("x", "y"), ("y", "y")],
+}
+BINDINGS = [(3, 5), (1, 4), (5, 2), (2, 2), (4, 1)]
+
+
+def gen_symbols(rng, kind: Optional[str] = None, variant: Optional[str] = None) -> dict:
+    b = rng.sample(BINDINGS[:3] + [BINDINGS[4]], 2) + [rng.choice(BINDINGS)]
+    return {"pattern": "symbols", "kind": kind or rng.choice(GRID_KINDS),
+            "variant": variant or rng.choice(list(SYMBOL_VARIANTS)),
+            "k": rng.choice([0.5, 2.0, -1.5]), "bindings": [list(x) for x in b]}
+
+
 # ----------------------------------------------------------------------------- nesting
 
 
@@ -287,9 +350,13 @@ def generate(rng, n: int) -> list[dict]:
     combos = [(k, d) for k in list(KINDS) + list(FN_KINDS) for d in DIFFS
               if not (k in FN_KINDS and d in ("identity", "weight", "static_alpha", "static_mode"))]
     combos = rng.shuffle(combos)
+    sym_combos = rng.shuffle([(k, v) for k in GRID_KINDS for v in SYMBOL_VARIANTS])
     for i in range(n):
         r = i % 5
-        if r == 4:
+        if i % 6 == 5:
+            k, v = sym_combos[(i // 6) % len(sym_combos)]
+            out.append(gen_symbols(rng, k, v))
+        elif r == 4:
             out.append(gen_nested(rng))
         else:
             k, d = combos[(i - i // 5) % len(combos)]
@@ -308,6 +375,7 @@ class Prog:
         self.fn = None
         self.specs: list[Any] = []
         self.feeds: list[np.ndarray] = []
+        self.feed_sets: Optional[list[list[np.ndarray]]] = None   # several bindings of the symbols
 
 
 def _feed(shape, dtype, salt: int) -> np.ndarray:
@@ -324,6 +392,8 @@ def build(desc: dict) -> Prog:
         _build_pair(p)
     elif desc["pattern"] == "nested":
         _build_nested(p)
+    elif desc["pattern"] == "symbols":
+        _build_symbols(p)
     elif desc["pattern"] == "probe":
         _build_probe(p)
     else:
@@ -396,6 +466,32 @@ def _build_pair(p: Prog) -> None:
         if d.get("chain"):
             outs.append(first(call_b(first(call_a(x, **_kw(a["gain"], det_kw))), **_kw(b["gain"], det_kw))))
         return tuple(outs)
+
+    p.fn = fn
+
+
+def _build_symbols(p: Prog) -> None:
+    d = p.desc
+    import sys
+    mod = sys.modules[MY_MODULE]
+    kind = d["kind"]
+    if kind == "GridFnD":
+        call = lambda a, b: getattr(mod, "grid_d")(a, b)   # noqa: E731 (module lookup at call time)
+    elif kind == "GridFnU":
+        call = lambda a, b: getattr(mod, "grid_u")(a, b)   # noqa: E731
+    else:
+        blk = {"GridD": GridD, "GridU": GridU}[kind](d["k"])
+        p.keep.append(blk)
+        call = blk
+    sites = SYMBOL_VARIANTS[d["variant"]]
+    p.specs = [("B",), ("N",), ("B",)]
+    p.feed_sets = [[_feed([B], "float32", 1), _feed([N], "float32", 2), _feed([B], "float32", 4)]
+                   for B, N in d["bindings"]]
+    p.feeds = p.feed_sets[0]
+
+    def fn(x, y, z):
+        env = {"x": x, "y": y, "z": z}
+        return tuple(call(env[a], env[b]) for a, b in sites)
 
     p.fn = fn
 
